@@ -5,7 +5,7 @@ Tie: T -- Gen/SimOps.v (simple_func) and Gen/SimExec.v (_sanitize / WireVector.b
 loops and the 'm' lookup of _execute, _mem_update, the register capture; shape of _execute's dispatch, order
 of the phases of step, the three net lists of _initialize) are regenerated from the current source by
 py/gen_coq.py + py/genfrag_C01.py on every run and Sim/SimModel.v is built from them; B -- the remaining
-plumbing of the model is compared with the implementation on every case below.
+plumbing of the model (input application, dict/set machinery) is compared with the implementation on every case below.
 
 Two streams of cases, both compared with the model (tie) and with Sem.v (search):
   random  seeded random API-built designs (gen_designs);
